@@ -2,7 +2,7 @@
 """mkmut.py NAME FILE OLD NEW [FILE OLD NEW ...] — make a mutant patch from exact string replacements in a scratch copy
 of /repo (/tmp/mwork), written to /verif/sensitivity/mutants/NAME.patch"""
 import subprocess, sys, os
-W = '/tmp/mwork'
+W = os.environ.get('MWORK', '/tmp/mwork')
 name = sys.argv[1]
 subprocess.run(f'rm -rf {W} && mkdir -p {W} && rsync -a --exclude .git --exclude "*.egg-info" --exclude __pycache__ /repo/ {W}/ && cd {W} && git init -q . && git add -A >/dev/null && git commit -qm base', shell=True, check=True, stdout=subprocess.DEVNULL)
 args = sys.argv[2:]
